@@ -11,7 +11,7 @@ use storage_layout_extractor::{
 };
 
 use crate::{
-    evidence::{self, run_unify, Ev, EvidenceSet, UnifyOpts, UnifyOutcome, USAGES},
+    evidence::{self, run_unify, Delivery, Ev, EvidenceSet, UnifyOpts, UnifyOutcome, USAGES},
     framework::{CaseResult, Check, CheckInfo, Tier, Violation},
     rng::{derive, Rng},
     sim::Sched,
@@ -368,7 +368,11 @@ pub fn postconditions(ev: &EvidenceSet, o: &UnifyOutcome) -> Option<(String, Val
 }
 
 /// Drops judgements / variables while the same signature persists.
-fn minimise(ev: &EvidenceSet, sched: &Sched, sig: &str) -> EvidenceSet {
+fn minimise(ev: &EvidenceSet, sched: &Sched, sig: &str, mode: Delivery) -> EvidenceSet {
+    let opts = || UnifyOpts {
+        mode,
+        ..UnifyOpts::default()
+    };
     let mut best = ev.clone();
     let mut budget = 400;
     let mut i = 0;
@@ -376,7 +380,7 @@ fn minimise(ev: &EvidenceSet, sched: &Sched, sig: &str) -> EvidenceSet {
         let mut cand = best.clone();
         cand.judgements.remove(i);
         budget -= 1;
-        let o = run_unify(&cand, sched, &UnifyOpts::default());
+        let o = run_unify(&cand, sched, &opts());
         if postconditions(&cand, &o).map(|x| x.0).as_deref() == Some(sig) {
             best = cand;
         } else {
@@ -394,7 +398,7 @@ fn minimise(ev: &EvidenceSet, sched: &Sched, sig: &str) -> EvidenceSet {
         n_vars:     map.len().max(1),
         judgements: best.judgements.iter().map(|(v, e)| (map[v], e.rename(&|x| map[&x]))).collect(),
     };
-    let o = run_unify(&compact, sched, &UnifyOpts::default());
+    let o = run_unify(&compact, sched, &opts());
     if postconditions(&compact, &o).map(|x| x.0).as_deref() == Some(sig) {
         compact
     } else {
@@ -407,7 +411,7 @@ impl Check for C14Check {
         CheckInfo {
             id: "C14",
             level: "exploration",
-            rule: "case = one generated judgement set over 2..40 type variables (equalities, words of all usages x widths {?,8,32,160,192,256}, dynamic bytes, mappings, fixed arrays of 2 lengths, dynamic arrays, Any; half of the sets also packed encodings with well-formed or arbitrary overlapping/unsorted spans; cyclic references in 1 of 5 sets; 1 of 8 sets is a ring of 1..3 packed encodings whose first span is the next variable of the ring plus a sized word, the family that reaches the unifier's stagnation check and round limit), unified under 6 schedules (3 natural hash keys, reverse-all, fold kind-sorted, seeded random); evaluations = unifier runs; non-trivial = the run folded at least one class with >= 2 pieces of evidence; distinct = distinct (judgement set, fold-order digest), counted with a hash set",
+            rule: "case = one generated judgement set over 2..40 type variables (equalities, words of all usages x widths {?,8,32,160,192,256}, dynamic bytes, mappings, fixed arrays of 2 lengths, dynamic arrays, Any; half of the sets also packed encodings with well-formed or arbitrary overlapping/unsorted spans; cyclic references in 1 of 5 sets; 1 of 8 sets is a ring of 1..3 packed encodings whose first span is the next variable of the ring plus a sized word, the family that reaches the unifier's stagnation check and round limit), unified under 6 schedules (3 natural hash keys, reverse-all, fold kind-sorted, seeded random), one of them with the state object used twice (half of the variables registered and an empty unification first, the rest allocated the way rules allocate them) and one with equalities recorded on one side only; evaluations = unifier runs; non-trivial = the run folded at least one class with >= 2 pieces of evidence; distinct = distinct (judgement set, fold-order digest), counted with a hash set",
             assumptions: &[
                 "the unifier is driven through TypeCheckerState::register/infer and unification::unify, as the type checker itself does",
                 "reference model is one-directional: model-equal implies implementation-equal; additional unions are not forbidden",
@@ -430,8 +434,13 @@ impl Check for C14Check {
         let ev = gen_evidence(&mut r);
         let has_packed = ev.judgements.iter().any(|(_, e)| matches!(e, Ev::Packed { .. }));
         res.probe(if has_packed { "sets_with_packed" } else { "sets_without_packed" });
-        for sched in schedules(seed) {
-            let o = run_unify(&ev, &sched, &UnifyOpts::default());
+        for (six, sched) in schedules(seed).into_iter().enumerate() {
+            let mode = Delivery::for_schedule(six);
+            let uopts = UnifyOpts {
+                mode,
+                ..UnifyOpts::default()
+            };
+            let o = run_unify(&ev, &sched, &uopts);
             res.runs += 1;
             res.steps += o.polls;
             if o.record.folds_multi > 0 {
@@ -456,12 +465,12 @@ impl Check for C14Check {
                 res.probe("some_class_conflicted");
             }
             if let Some((sig, detail)) = postconditions(&ev, &o) {
-                let small = minimise(&ev, &sched, &sig);
+                let small = minimise(&ev, &sched, &sig, mode);
                 res.violations.push(Violation {
                     property:  "C14".into(),
                     signature: sig,
                     detail:    json!({"case": idx, "seed": seed, "schedule": sched.label(), "explanation": detail, "evidence": small.judgements.iter().map(|(v, e)| format!("v{v}: {}", e.kind())).collect::<Vec<_>>(), "original_judgements": ev.judgements.len()}),
-                    replay:    json!({"check": "C14", "kind": "evidence", "evidence": small, "sched": sched}),
+                    replay:    json!({"check": "C14", "kind": "evidence", "evidence": small, "sched": sched, "mode": mode}),
                 });
                 break;
             }
@@ -476,7 +485,15 @@ impl Check for C14Check {
     fn replay(&self, payload: &Value) -> Result<Option<Violation>, String> {
         let ev: EvidenceSet = serde_json::from_value(payload["evidence"].clone()).map_err(|e| e.to_string())?;
         let sched: Sched = serde_json::from_value(payload["sched"].clone()).map_err(|e| e.to_string())?;
-        let o = run_unify(&ev, &sched, &UnifyOpts::default());
+        let mode: Delivery = serde_json::from_value(payload["mode"].clone()).unwrap_or(Delivery::Plain);
+        let o = run_unify(
+            &ev,
+            &sched,
+            &UnifyOpts {
+                mode,
+                ..UnifyOpts::default()
+            },
+        );
         Ok(postconditions(&ev, &o).map(|(sig, detail)| Violation {
             property:  "C14".into(),
             signature: sig,
